@@ -7,7 +7,7 @@ from common import hx
 from eth_hash.auto import keccak
 
 ID = "C05"
-LEAN_IMPORTS = ["PyTrie.Props.C05", "PyTrie.Props.C05Batch", "PyTrie.Props.NonVacuity", "PyTrie.Props.FreeExec", "PyTrie.Props.NonVacuity5", "PyTrie.Props.FreeBatch", "PyTrie.Props.HistoryBlocks", "PyTrie.Props.NonVacuity9"]
+LEAN_IMPORTS = ["PyTrie.Props.C05", "PyTrie.Props.C05Batch", "PyTrie.Props.NonVacuity", "PyTrie.Props.FreeExec", "PyTrie.Props.NonVacuity5", "PyTrie.Props.FreeBatch", "PyTrie.Props.HistoryBlocks", "PyTrie.Props.NonVacuity9", "PyTrie.Props.HistoryFailCommit", "PyTrie.Props.NonVacuity11"]
 THEOREMS = [
     "PyTrie.Props.Free.batch_op_leaves_outer",
     "PyTrie.Props.Free.abort_restores",
@@ -61,6 +61,15 @@ THEOREMS = [
     "PyTrie.Props.Free.history_blocks_root",
     "PyTrie.Props.NonVacuity9.world_witness_p",
     "PyTrie.Props.NonVacuity9.world_witness_np",
+    "PyTrie.Props.Free.fail_block_step",
+    "PyTrie.Props.Free.history_fail_commit_world",
+    "PyTrie.Props.Free.history_fail_commit_lockstep",
+    "PyTrie.Props.Free.history_fail_commit_get",
+    "PyTrie.Props.NonVacuity11.fsteps_good",
+    "PyTrie.Props.NonVacuity11.world_witness",
+    "PyTrie.Props.NonVacuity11.lockstep_witness",
+    "PyTrie.Props.NonVacuity11.get_witness",
+    "PyTrie.Props.NonVacuity11.evaluated",
 ]
 RULE = ("prior history, then squash_changes blocks with every exit kind: normal, an exception after n of the "
         "block's operations (every n), and - for non-pruning tries - the n-th database write of the commit failing "
